@@ -4,6 +4,7 @@ package alt
 
 import (
 	"fmt"
+	"math"
 	"reflect"
 	"time"
 	"unsafe"
@@ -68,7 +69,7 @@ func Match(fingerprint, target any) bool {
 		}
 	case int, int8, int16, int32, int64, uint, uint8, uint16, uint32, uint64:
 		i0, _ := asInt(fp)
-		if i1, ok := asInt(target); !ok || i0 != i1 {
+		if i1, ok := asInt(target); !ok || i0 != i1 || beyondInt64(fp) != beyondInt64(target) {
 			return false
 		}
 	case float32, float64:
@@ -137,7 +138,7 @@ func diff(v0, v1 any, one bool, ignores ...Path) (diffs []Path) {
 		}
 	case int, int8, int16, int32, int64, uint, uint8, uint16, uint32, uint64:
 		i0, _ := asInt(v0)
-		if i1, ok := asInt(v1); !ok || i0 != i1 {
+		if i1, ok := asInt(v1); !ok || i0 != i1 || beyondInt64(v0) != beyondInt64(v1) {
 			diffs = append(diffs, Path{nil})
 		}
 	case float32, float64:
@@ -381,6 +382,18 @@ func ignoreKey(k string, ignores []Path) bool {
 				}
 			}
 		}
+	}
+	return false
+}
+
+// beyondInt64 returns true for unsigned values that do not fit an int64.
+// asInt keeps the bits of those, which then look like negative numbers.
+func beyondInt64(v any) bool {
+	switch tv := v.(type) {
+	case uint64:
+		return math.MaxInt64 < tv
+	case uint:
+		return math.MaxInt64 < uint64(tv)
 	}
 	return false
 }
